@@ -30,7 +30,7 @@ def run_demos(patch_text, meta):
     results = {}
     for f in sorted(glob.glob(os.path.join(md, "*"))):
         b = os.path.basename(f)
-        if b.endswith("_test.rs") or (b.endswith(".rs") and "test" in b):
+        if b.endswith(".rs"):
             crate = demo_crate(b, patch_text, meta)
             tdir = os.path.join(wt, crate, "tests"); os.makedirs(tdir, exist_ok=True)
             name = "zz_" + b[:-3]
@@ -39,7 +39,10 @@ def run_demos(patch_text, meta):
             os.remove(os.path.join(tdir, name + ".rs"))
             results[b] = {"rc": rc, "tail": out[-600:]}
         elif b.endswith(".sh"):
-            rc, out = sh(f"sh {f} 2>&1", timeout=900)
+            # shell demonstrations build into the worktree's own target dir
+            e3 = dict(env); e3.pop("CARGO_TARGET_DIR", None)
+            p = subprocess.run(f"sh {f} 2>&1", shell=True, cwd=wt, env=e3, capture_output=True, text=True, timeout=1800)
+            rc, out = p.returncode, p.stdout + p.stderr
             results[b] = {"rc": rc, "tail": out[-600:]}
     return results
 meta = {}
